@@ -11,6 +11,7 @@ mod util;
 
 mod barops;
 mod c01;
+mod c02y;
 mod c03x;
 mod c04s;
 mod c05;
@@ -160,6 +161,7 @@ fn main() {
         std::process::exit((check.replay)(&v));
     }
 
+    let _ = report::CURRENT_PROP.set(check.id.to_string());
     let _ = report::KNOWN_CLASSES.set(load_known(check.id).into_iter().map(|k| k.0).collect());
     if let Some(sh) = shard {
         let mut stats = Stats::default();
